@@ -12,9 +12,16 @@ import (
 func symActions(prefix string, n int) []strategy.Action {
 	as := make([]strategy.Action, n)
 	for i := range as {
-		a := vrt.Int(prefix, i)
-		vrt.Assume(a >= -1 && a <= 1)
-		as[i] = strategy.Action(a)
+		// two booleans per action: every action term is an ite over the three
+		// constants, so comparisons fold into propositional structure (no bit-vector unknowns)
+		buy, sell := vrt.Bool(prefix+"B", i), vrt.Bool(prefix+"S", i)
+		a := strategy.Hold
+		if buy {
+			a = strategy.Buy
+		} else if sell {
+			a = strategy.Sell
+		}
+		as[i] = a
 	}
 	return as
 }
@@ -541,4 +548,42 @@ func swapWords(s strategy.Strategy, a, b []strategy.Action) {
 	case *decorator.StopLossStrategy:
 		set(t.InnertStrategy, a)
 	}
+}
+
+// H_C18_Deco: decorators do not depend on the currency unit: scaling every
+// closing by 2 (which 0) or 1/4 (which 1) leaves the decorated actions unchanged.
+// kind 5 NoLoss, 6 StopLoss, 4 Inverse.
+func H_C18_Deco(kind, n, which int) {
+	a := symActions("a", n)
+	c := positive("c", n)
+	f := 2.0
+	if which == 1 {
+		f = 0.25
+	}
+	p := vrt.Float64("p")
+	vrt.Assume(p >= 0 && p < 1)
+	mk := func() strategy.Strategy {
+		st := &stubStrategy{name: "a", acts: a}
+		switch kind {
+		case 4:
+			return decorator.NewInverseStrategy(st)
+		case 5:
+			return decorator.NewNoLossStrategy(st)
+		default:
+			return decorator.NewStopLossStrategy(st, p)
+		}
+	}
+	sc := make([]float64, n)
+	for i := range c {
+		sc[i] = c[i] * f
+	}
+	x := Collect1(mk().Compute(Src(snapshotsOf(c), 0)))
+	y := Collect1(mk().Compute(Src(snapshotsOf(sc), 0)))
+	vrt.Assert("len", len(x) == len(y))
+	for i := range x {
+		if i < len(y) {
+			vrt.AssertAt("same_action", i, x[i] == y[i])
+		}
+	}
+	vrt.Reach("end")
 }
